@@ -1575,19 +1575,6 @@ class StateEngine(object):
                             )
 
                             """
-                            Tidy up self.branch_metadata for current execution_arn
-                            before republishing the state event. This is only
-                            needed when the state being retried is itself a
-                            Parallel or Map state (the branches of its failed
-                            attempt have to be released). When a state *inside*
-                            a branch is retried its siblings are still live and
-                            their events must stay held.
-                            """
-                            if ((state_type == "Parallel" or state_type == "Map") and
-                                execution_arn in self.branch_metadata):
-                                self.check_pending_results(execution_arn)
-
-                            """
                             Republish the Task state event with the new
                             RetryCount and RetryTimeout set. We also adjust
                             EnteredTime above. The ASL spec is unclear on
@@ -1603,6 +1590,21 @@ class StateEngine(object):
                             """
                             self.event_dispatcher.publish(event)
                             retry_matched = True
+
+                            """
+                            Tidy up self.branch_metadata for current execution_arn
+                            once the state event has been republished, as the
+                            events held for the branches of the failed attempt
+                            may be all that carries the execution. This is only
+                            needed when the state being retried is itself a
+                            Parallel or Map state (the branches of its failed
+                            attempt have to be released). When a state *inside*
+                            a branch is retried its siblings are still live and
+                            their events must stay held.
+                            """
+                            if ((state_type == "Parallel" or state_type == "Map") and
+                                execution_arn in self.branch_metadata):
+                                self.check_pending_results(execution_arn)
 
                         break
 
